@@ -84,6 +84,10 @@ type Flags struct {
 	Disable string `json:"disable"`
 	Go      string `json:"go"`
 	Debug   bool   `json:"debug"`
+	// DebugGroup is -debug-group (engine debug output for one group: must not change any diagnostic);
+	// Force is analyzer.ForceNewEngine (the testing switch: the cache is bypassed, every pass loads the rules anew)
+	DebugGroup string `json:"debug_group"`
+	Force      bool   `json:"force"`
 }
 
 type Scenario struct {
@@ -109,7 +113,7 @@ type pkgT struct {
 	pkg   *types.Package
 }
 
-var groupPool = []string{"alpha", "beta", "gamma2", "δelta", "_x", "Eps", "zeta", "all", "Mul", "chainA", "chainB", "del"}
+var groupPool = []string{"alpha", "beta", "gamma2", "δelta", "_x", "Eps", "zeta", "all", "Mul", "chainA", "chainB", "del", "sz", "pk"}
 
 // groupBody: the rules of one group at message version v. Groups never match the same AST node (the engine
 // reports only the first matching rule per node, so only then is "reports of the enabled groups" = "reports of
@@ -143,6 +147,12 @@ func groupBody(name string, v int) string {
 		return "\tm.Match(`legacy($x).then($y)`).Report(`same text`).Suggest(`modern($x, $y)`)\n"
 	case "chainB":
 		return "\tm.Match(`legacy($x)`).Report(`same text`)\n"
+	case "sz":
+		// needs RunContext.Sizes
+		return "\tm.Match(`psz($x)`).Where(m[\"x\"].Type.Size >= 8).Report(`" + tag + " wide $x`)\n"
+	case "pk":
+		// needs RunContext.Pkg
+		return "\tm.Match(`ppk($x)`).Where(m.File().PkgPath.Matches(`p[abd]$`)).Report(`" + tag + " in package`)\n"
 	case "del":
 		// a suggestion that renders to the empty text (deletion) when the call has no arguments
 		return "\tm.Match(`pdel($*xs)`).Report(`" + tag + " del`).Suggest(`$xs`)\n"
@@ -175,6 +185,8 @@ func pz1(x interface{})      {}
 func pz2(x, y interface{})   {}
 func pdel(args ...int)       {}
 func pbn1(x interface{})     {}
+func psz(x interface{})      {}
+func ppk(x interface{})      {}
 func pbn2(x interface{})     {}
 
 type chain struct{}
@@ -201,6 +213,10 @@ func f(a, b int) int {
 	pdel(1, b)
 	pbn1(a)
 	pbn2("two")
+	psz(int64(a))
+	psz(int8(a))
+	psz("str")
+	ppk(a)
 	legacy(1).then(2)
 	legacy(a).then(b).then(5)
 	if a == a {
@@ -240,6 +256,8 @@ func nothing() {}
 package pd
 ` + decls + `
 func y(a int) int {
+	ppk(a)
+	psz(a)
 	pa1(a)
 	pb1(a + 1)
 	return a * 2 * a
@@ -550,6 +568,10 @@ func main() {
 		}
 		fl.Go = pick(rng, []string{"", "", "", "", "", "1.16", "1.17", "1.18", "1.22", "1.20", "1.18", "", pick(rng, []string{"go1.5", "1", "abc"})})
 		fl.Debug = rng.Intn(2) == 0
+		if rng.Intn(6) == 0 {
+			fl.DebugGroup = pick(rng, append([]string{"nosuchgroup"}, groups...))
+		}
+		fl.Force = rng.Intn(10) == 0
 		if mode == "rules" || mode == "rules+e" {
 			var parts []string
 			for _, fn := range fileNames {
@@ -625,6 +647,8 @@ func main() {
 		setFlag("disable", fl.Disable)
 		setFlag("go", fl.Go)
 		setFlag("debug-enable-disable", fmt.Sprint(fl.Debug))
+		setFlag("debug-group", fl.DebugGroup)
+		analyzer.ForceNewEngine = fl.Force
 		if !*noreset {
 			analyzer.VerifResetGlobals()
 		}
@@ -704,6 +728,8 @@ func main() {
 		}
 		os.Stderr = realStderr
 		errFile.Close()
+		analyzer.ForceNewEngine = false
+		setFlag("debug-group", "")
 		if data, err := os.ReadFile(errPath); err == nil {
 			for _, line := range strings.Split(string(data), "\n") {
 				if strings.HasPrefix(line, "(+) ") || strings.HasPrefix(line, "(-) ") {
